@@ -122,7 +122,7 @@ impl<'a> Walker<'a> {
 }
 
 #[derive(Clone)]
-enum Unit { Walk { root: Pos, depth: u32, passes: u32, label: String }, Games { seed: u64, n: usize }, AfterSearch { root: Pos } }
+enum Unit { Walk { root: Pos, depth: u32, passes: u32, label: String }, Games { seed: u64, n: usize }, AfterSearch { root: Pos }, ReturnTrips { roots: Vec<Pos>, seed: u64 } }
 
 fn run_unit(ctx: &Ctx, u: &Unit, seed: u64) {
     let mut w = Walker { ctx, g: MoveGenerator::new(), l: Local::default(), root: Pos::start(), history: vec![], nodes: 0, rng: Rng::new(seed), sample_every: 1500, annotated_every: 7, nodes_this_pass: 0, node_cap: 260_000 };
@@ -175,6 +175,51 @@ fn run_unit(ctx: &Ctx, u: &Unit, seed: u64) {
                 if ctx.out_of_budget() { break; }
             }
         }
+        Unit::ReturnTrips { roots, seed } => {
+            // out-and-back histories: a piece of each side leaves and returns, so the placement recurs with the
+            // same side to move but (possibly) fewer castling rights and without the en-passant target
+            let mut r = Rng::new(*seed);
+            for root in roots {
+                w.root = root.clone();
+                w.history.push(format!("return trips from {}", root.to_fen()));
+                if w.history.len() > 30 { w.history.remove(0); }
+                let mut b = to_engine(root);
+                w.query(root, &mut b, &[]);
+                let reversible = |p: &Pos| -> Vec<Mv> { p.legal_moves().into_iter().filter(|m| m.piece != Pc::P && m.captured.is_none() && m.kind == Kind::Quiet).collect() };
+                let mut m1s = reversible(root); r.shuffle(&mut m1s);
+                for m1 in m1s.into_iter().take(10) {
+                    let p1 = root.make(&m1);
+                    let mut m2s = reversible(&p1); r.shuffle(&mut m2s);
+                    for m2 in m2s.into_iter().take(4) {
+                        let p2 = p1.make(&m2);
+                        let back1 = p2.legal_moves().into_iter().find(|m| m.from == m1.to && m.to == m1.from && m.kind == Kind::Quiet);
+                        let back1 = match back1 { Some(m) => m, None => continue };
+                        let p3 = p2.make(&back1);
+                        let back2 = p3.legal_moves().into_iter().find(|m| m.from == m2.to && m.to == m2.from && m.kind == Kind::Quiet);
+                        let back2 = match back2 { Some(m) => m, None => continue };
+                        let p4 = p3.make(&back2);
+                        let path = [m1, m2, back1, back2];
+                        let poss = [p1.clone(), p2, p3, p4];
+                        let mut ems = vec![];
+                        let mut cur = root.clone();
+                        let mut ok = true;
+                        for (i, m) in path.iter().enumerate() {
+                            let em = engine_move(m, cur.turn);
+                            if em.apply(&mut b).is_err() { ok = false; break; }
+                            b.toggle_turn(); ems.push(em);
+                            cur = poss[i].clone();
+                            w.query(&cur, &mut b, &path[..=i]);
+                        }
+                        if ok { w.l.inc("return_trips"); if cur.rights != root.rights || cur.ep != root.ep { w.l.inc("return_trips_ending_in_a_look_alike_of_the_root"); } }
+                        while let Some(em) = ems.pop() { b.toggle_turn(); em.undo(&mut b).ok(); }
+                        w.query(root, &mut b, &[]);
+                    }
+                    if ctx.out_of_budget() { break; }
+                }
+                w.l.flush(ctx);
+                if ctx.out_of_budget() { break; }
+            }
+        }
         Unit::AfterSearch { root } => {
             // the generator first serves as the root generator of a search and of a position count
             w.root = root.clone();
@@ -206,6 +251,11 @@ pub fn c02(o: &Opts) -> i32 {
     for &i in idx.iter().take(if q { 24 } else { corpus.len() }) { if i >= 6 { units.push(Unit::Walk { root: corpus[i].0.clone(), depth: 3, passes: 2, label: corpus[i].1.clone() }); } }
     for k in 0..if q { 6 } else { 40 } { units.push(Unit::Games { seed: o.seed.wrapping_mul(1000).wrapping_add(k), n: if q { 6 } else { 20 } }); }
     for &i in idx.iter().take(if q { 6 } else { 40 }) { units.push(Unit::AfterSearch { root: corpus[i].0.clone() }); }
+    // return trips from every corpus position that has castling rights or an ep target, and from castle-focused set-ups
+    let mut rich: Vec<Pos> = corpus.iter().map(|x| x.0.clone()).filter(|p| p.rights != 0 || p.ep.is_some()).collect();
+    for _ in 0..if q { 120 } else { 1500 } { let prof = *r.pick(&[5usize, 5, 1]); let p = gen::random_setup_profile(&mut r, prof); if p.rights != 0 || p.ep.is_some() { rich.push(p); } }
+    r.shuffle(&mut rich);
+    for (k, chunk) in rich.chunks(12).enumerate() { units.insert(1 + k.min(units.len() - 1), Unit::ReturnTrips { roots: chunk.to_vec(), seed: o.seed ^ (k as u64) << 9 }); }
     if let Some(path) = &o.replay {
         let v = load_replay(path);
         let case = case_from_replay(&v);
@@ -223,5 +273,5 @@ pub fn c02(o: &Opts) -> i32 {
     ctx.finish(ctx.counter("move_queries") + ctx.counter("attack_queries"),
         "one long-lived generator per history is dragged through exhaustive walks (twice: ordered, then shuffled so the second pass is served from the caches), games with undo detours, annotated generation, and use as root generator of a search and a position count; every answer (move set, both attack maps) is compared with the reference rules / a re-derived attack map and, on any difference and on every 1500th query, with a brand-new generator on a board set up from scratch - only long-lived != brand-new is a violation. distinct_nontrivial = distinct queried positions with an ep target or reduced castling rights (the collision candidates)",
         &["hook counters show that the cache-hit path really served the queries"],
-        &[("move_cache_hits", 10_000), ("attack_cache_hits", 1_000), ("fresh_generator_confirmations", 50), ("walk_passes", 4)])
+        &[("move_cache_hits", 10_000), ("attack_cache_hits", 1_000), ("fresh_generator_confirmations", 50), ("walk_passes", 4), ("return_trips_ending_in_a_look_alike_of_the_root", 200)])
 }
